@@ -64,6 +64,15 @@ fn catalogue(k: usize, dead_session: Option<u32>) -> Vec<Fault> {
         Fault { kind: "alias-self-assign", content: "<assign location=\"x\" expr=\"x\"/>".into(), expect: Expect::Nothing, aborts_block: Some(false) },
         Fault { kind: "alias-array-self", content: "<assign location=\"arr\" expr=\"arr\"/>".into(), expect: Expect::Nothing, aborts_block: Some(false) },
         Fault { kind: "alias-compare-self", content: "<if cond=\"arr == arr\"><assign location=\"x\" expr=\"x + x\"/></if>".into(), expect: Expect::Nothing, aborts_block: Some(false) },
+        Fault { kind: "alias-nested-down", content: "<assign location=\"nest\" expr=\"nest[0]\"/><assign location=\"nest\" expr=\"[[5]]\"/>".into(), expect: Expect::Nothing, aborts_block: Some(false) },
+        Fault { kind: "alias-nested-up", content: "<assign location=\"nest[0]\" expr=\"nest\"/><assign location=\"nest\" expr=\"[[5]]\"/>".into(), expect: Expect::AtMost, aborts_block: None },
+        Fault { kind: "alias-map-child", content: "<assign location=\"node\" expr=\"node.next\"/><assign location=\"node\" expr=\"{'next':{'next':null}}\"/>".into(), expect: Expect::Nothing, aborts_block: Some(false) },
+        Fault { kind: "alias-self-index", content: "<assign location=\"x\" expr=\"arr[arr]\"/>".into(), expect: Expect::AtMost, aborts_block: None },
+        Fault { kind: "alias-event-target", content: format!("<send id=\"{}\" eventexpr=\"tv\" targetexpr=\"tv\"/>", id), expect: Expect::Nothing, aborts_block: Some(false) },
+        Fault { kind: "alias-event-param", content: format!("<send id=\"{}\" eventexpr=\"ev\"><param name=\"p\" expr=\"ev\"/></send>", id), expect: Expect::Nothing, aborts_block: Some(false) },
+        Fault { kind: "huge-delay", content: format!("<send id=\"{}\" event=\"x\" delay=\"9999999999999999s\"/>", id), expect: Expect::AtMost, aborts_block: None },
+        Fault { kind: "huge-delayexpr", content: format!("<send id=\"{}\" event=\"x\" delayexpr=\"'9999999999999999s'\"/>", id), expect: Expect::AtMost, aborts_block: None },
+        Fault { kind: "large-delay", content: format!("<send id=\"{}\" event=\"x\" delay=\"99999999999d\"/>", id), expect: Expect::AtMost, aborts_block: None },
         Fault { kind: "cancel-unknown", content: "<cancel sendid=\"never-sent\"/>".into(), expect: Expect::Nothing, aborts_block: Some(false) },
         Fault { kind: "cancel-bad-expr", content: "<cancel sendidexpr=\"nosuchvar\"/>".into(), expect: Expect::AtMost, aborts_block: None },
         Fault { kind: "foreach-noncollection", content: "<foreach array=\"x\" item=\"it\"><log expr=\"it\"/></foreach>".into(), expect: Expect::Must("error.execution"), aborts_block: Some(true) },
@@ -91,7 +100,7 @@ fn invoke_catalogue() -> Vec<(&'static str, String)> {
 fn doc(faults: &[Fault], inv: &[(&'static str, String)]) -> String {
     let mut s = String::new();
     s.push_str("<scxml xmlns=\"http://www.w3.org/2005/07/scxml\" version=\"1.0\" datamodel=\"rfsm-expression\" name=\"faulty\" initial=\"run\">\n");
-    s.push_str(" <datamodel><data id=\"x\" expr=\"1\"/><data id=\"arr\" expr=\"[1, 2, 3]\"/><data id=\"it\" expr=\"0\"/></datamodel>\n <state id=\"run\">\n");
+    s.push_str(" <datamodel><data id=\"x\" expr=\"1\"/><data id=\"arr\" expr=\"[1, 2, 3]\"/><data id=\"nest\" expr=\"[[5]]\"/><data id=\"node\" expr=\"{'next':{'next':null}}\"/><data id=\"tv\" expr=\"'#_internal'\"/><data id=\"ev\" expr=\"'x.ok'\"/><data id=\"it\" expr=\"0\"/></datamodel>\n <state id=\"run\">\n");
     s.push_str("  <transition event=\"ping\"><script>mark('pong')</script></transition>\n");
     s.push_str("  <transition event=\"error\"><script>mark('err', _event.name, _event.sendid)</script></transition>\n");
     for (k, f) in faults.iter().enumerate() {
